@@ -7,7 +7,7 @@ LIB = "varlink/src/lib.rs"
 WIRE_STRUCTS = ("Request", "Reply", "ServiceInfo", "GetInterfaceDescriptionReply", "GetInterfaceDescriptionArgs", "GetInfoArgs",
                 "ErrorInterfaceNotFound", "ErrorInvalidParameter", "ErrorMethodNotImplemented", "ErrorMethodNotFound")
 MUST_OMIT = ("Request", "Reply", "GetInterfaceDescriptionReply")
-ASYM = ("rename", "default", "skip_deserializing", "skip_serializing)", "alias", "flatten", "with", "serialize_with", "deserialize_with", "skip)", "skip,", "untagged", "tag", "deny_unknown_fields", "from", "into", "try_from")
+ASYM = ("skip_serializing_if", "rename", "default", "skip_deserializing", "skip_serializing)", "alias", "flatten", "with", "serialize_with", "deserialize_with", "skip)", "skip,", "untagged", "tag", "deny_unknown_fields", "from", "into", "try_from")
 
 
 def run(cx):
@@ -124,6 +124,26 @@ def r3(cx, rule="C17.R3"):
     dm = [t for t in de.calls() if not t.callee.indirect and t.callee.name.startswith("deserialize_")]
     cx.check([t.callee.name for t in dm] == ["deserialize_map"], rule, "varlink:StringHashSet:deserialize-kind", de.sp,
              "deserialize does not ask for a map (%s): serialised form and accepted form differ" % [t.callee.name for t in dm], note_ok="deserialize_map")
+    # the keys are read as String: std's impl accepts every form a deserializer can hand a string in (borrowed, transient, owned)
+    for b in [b for b in cx.mir.bodies("varlink") if b.promoted is None and b.path.endswith("::visit_map") and not (b.mac and "derive" in b.mac)]:
+        for i, t in enumerate([t for t in b.calls() if t.callee.name.startswith("next_key") or t.callee.name == "next_entry"]):
+            ty = b.ty(t.dest.l).replace("std::string::", "").replace("alloc::string::", "")
+            cx.check("Option<String>" in ty.replace(" ", "") or "Option<(String," in ty.replace(" ", ""), rule, "varlink:StringHashSet:visit_map:key-type#%d" % i, "%s %s" % (t.sp, b.path),
+                     "set elements are read as `%s`, not as String: a hand-written key type accepts only some of the ways a deserializer presents a string (escaped keys arrive through visit_str, Value keys through visit_string), so text, bytes and Value disagree" % ty[:80],
+                     note_ok="keys read as String")
+    # hand-written visitors: the owned/borrowed string callbacks default to visit_str, never the other way round
+    groups = {}
+    for path, rec in cx.ast.files.items():
+        if not path.endswith(".rs") or "/tests/" in path: continue
+        for f in rec["_fns"]:
+            if "Visitor" in (f.trait or "") and f.name.startswith("visit_"): groups.setdefault((path, f.self_ty, f.line // 100000), []).append(f)
+    for (path, st, _), fs in sorted(groups.items()):
+        names = {f.name for f in fs}
+        strs = names & {"visit_string", "visit_borrowed_str"}
+        bys = names & {"visit_byte_buf", "visit_borrowed_bytes"}
+        cx.check(not (strs and "visit_str" not in names) and not (bys and "visit_bytes" not in names), rule, "%s:%s:visitor-string-callbacks" % (path, st.replace(" ", "")), "%s:%d" % (path, fs[0].line),
+                 "Visitor for %s implements %s but not the transient form (visit_str/visit_bytes): serde forwards owned and borrowed strings to the transient callback, not the reverse, so input that arrives transiently (escaped JSON strings) is rejected" % (st, sorted(strs | bys)),
+                 note_ok="callbacks %s" % sorted(names))
     # the visitor inserts every key it read
     vm = [b for b in cx.mir.bodies("varlink") if b.promoted is None and b.path.endswith("::visit_map") and not (b.mac and "derive" in b.mac)]
     for b in vm:
